@@ -29,7 +29,7 @@ def fr(x):
 
 # ------------------------------------------------------------------ scenario -> config text
 def colvar_block(i, v):
-    L = ["colvar {", "  name v%d" % i, "  width %r" % v["w"], "  lowerBoundary -32", "  upperBoundary 32"]
+    L = ["colvar {", "  name v%d" % i, "  width %r" % v["w"], "  lowerBoundary %r" % v.get("lo", -32), "  upperBoundary %r" % v.get("hi", 32)]
     if v["tsf"] != 1:
         L.append("  timeStepFactor %d" % v["tsf"])
     if v.get("extra"):
@@ -73,6 +73,8 @@ def bias_block(sc, j):
         L += ["  applyBias off", "  fullSamples 1"]
     elif b["kind"] == "FA":
         L += ["  fullSamples %d" % b.get("full", 2)]
+    if b.get("grid"):
+        L += ["  scaledBiasingForce on", "  scaledBiasingForceFactorsGrid sf_%d_%d.dat" % (sc["id"], j)]
     L.append("}")
     return L
 
@@ -184,6 +186,8 @@ def model_case(sc, subset, fixed=FIXED, efix=EFIX):
             p += ["G"]
         else:
             p += ["C", hx(b.get("e", 0.0))]
+        g = b.get("grid")
+        p += (["S", hx(g["lo"]), hx(g["w"]), str(len(g["vals"]))] + [hx(x) for x in g["vals"]]) if g else ["N"]
     evs = [ev for ev in sc["events"] if ev[0] in ("S", "R") or ev[1] in subset]
     p.append(str(len(evs)))
     for ev in evs:
@@ -439,13 +443,19 @@ def spec_run(sc, subset):
                         Fs.append(-sign * k * diff)
                 else:
                     Fs.append(Fr(0))
+            if b.get("grid"):
+                # scaledBiasingForce: the force (not the energy) is multiplied by the factor of the bin of the first variable
+                g = b["grid"]
+                bn = (xs[b["vars"][0]] - fr(g["lo"])) // fr(g["w"])
+                fac = fr(g["vals"][int(bn)]) if 0 <= bn < len(g["vals"]) else Fr(1)
+                per[j]["fac"] = fac
             per[j]["E"] = e
             per[j]["F"] = Fs
             applies = b["kind"] not in ("G", "F")
             if applies:
                 E += e
                 for n, i in enumerate(b["vars"]):
-                    fvar[i] += b["tsf"] * Fs[n]
+                    fvar[i] += b["tsf"] * Fs[n] * per[j].get("fac", 1)
         af = [[Fr(0)] * 3 for _ in range(sc["natoms"])]
         for i, cs in enumerate(vin):
             for c in cs:
@@ -906,6 +916,31 @@ def oracle_abf_coupling(run, sc, R):
     return nz
 
 
+def scaled_scenario(r, k):
+    """scaledBiasingForce: the force of a bias is multiplied by the factor read from scaledBiasingForceFactorsGrid at the bin
+    of the current value (1 outside the grid); one variable with a 4-8 bin grid, values inside, on bin edges and outside"""
+    w = r.choice([0.5, 1.0])
+    nb = r.choice([4, 6, 8])
+    lo = dy(r, -2, 0, 1)
+    v = {"tsf": 1, "w": w, "lo": lo, "hi": lo + nb * w, "comps": [{"main": [0], "ref": [], "axis": 2, "coeff": r.choice([1.0, 2.0]), "np": 1}]}
+    biases = []
+    for _ in range(r.randint(1, 2)):
+        b = {"kind": r.choice(["H", "L", "W", "A"]), "tsf": r.choice([1, 2, 3]), "vars": [0], "k": r.choice([1.0, 2.0]), "centers": [dy(r, -1, 1, 2)],
+             "stop": 4.0, "dec": False}
+        if r.random() < 0.8:
+            b["grid"] = {"lo": lo, "w": w, "vals": [r.choice([0.0, 0.5, 1.0, 2.0, 3.0]) for _ in range(nb)]}
+        biases.append(b)
+    ev = []
+    for s_ in range(r.randint(8, 12)):
+        m = r.random()
+        x = lo + r.randint(-2, nb + 2) * w if m < 0.3 else dy(r, lo - 1, lo + nb * w + 1, 3)
+        z = x / v["comps"][0]["coeff"]
+        ev.append(("S", [[0.0, 0.0, z], [0.0, 0.0, 0.0]]))
+    nbs = len(biases)
+    return {"id": k, "family": "scaled", "natoms": 2, "mass": [1.0, 1.0], "vars": [v], "biases": biases, "it0": r.choice([0, 0, 3]),
+            "events": ev, "A": [0], "B": list(range(1, nbs))}
+
+
 def coupling_scenario(r, k):
     """lagged engine forces that include the Colvars forces, a one-atom distanceZ variable with subtractAppliedForce and
     outputTotalForce, two restraints: the total force reported at step t+1 must be the engine's own force of step t,
@@ -982,6 +1017,14 @@ def run_batch(unit, model, scs, d):
             if all(sc["biases"][j]["kind"] not in ("F", "FA") for j in sub) and sc["family"] not in ("ext", "scripted"):
                 M.append(model_case(sc, sub))
                 keys.append(tag)
+    for sc in scs:
+        for j, b in enumerate(sc["biases"]):
+            if b.get("grid"):
+                g = b["grid"]
+                with open(os.path.join(d, "sf_%d_%d.dat" % (sc["id"], j)), "w") as f:
+                    f.write("# 1\n# %r %r %d 0\n\n" % (float(g["lo"]), float(g["w"]), len(g["vals"])))
+                    for q, x in enumerate(g["vals"]):
+                        f.write("%r %r\n" % (float(g["lo"]) + (q + 0.5) * float(g["w"]), float(x)))
     rc, out, err = V.run_lines(unit, L, timeout=1200, cwd=d)
     impl = parse_impl(out)
     rc2, mout, err2 = V.run_lines(model, M, timeout=1200)
@@ -1007,7 +1050,7 @@ def check(run):
     if st is None:
         return
     model, exes = st
-    unit = exes["c08unit"]
+    unit = os.environ.get("C08_UNIT_EXE") or exes["c08unit"]     # e.g. a --coverage build of the same harness
     d = V.scratch("C08")
 
     scs = []
@@ -1026,6 +1069,9 @@ def check(run):
         k += 1
     for _ in range(n_cp):
         scs.append(coupling_scenario(r, k))
+        k += 1
+    for _ in range(16 if quick else 400):
+        scs.append(scaled_scenario(r, k))
         k += 1
     for _ in range(12 if quick else 300):
         scs.append(ext_scenario(r, k))
